@@ -227,6 +227,18 @@ impl<'a, 'tcx> Cx<'a, 'tcx> {
         if matches!(kind, DefKind::Fn | DefKind::AssocFn) {
             let _ = write!(self.s, ",\"pub\":{}", tcx.visibility(did).is_public());
         }
+        if matches!(kind, DefKind::Fn | DefKind::AssocFn | DefKind::Closure) {
+            // generic parameter names in substitution order (parents first): lets the rules instantiate a spliced generic helper
+            let g = tcx.generics_of(did);
+            self.s.push_str(",\"generics\":[");
+            for i in 0..g.count() {
+                if i > 0 {
+                    self.s.push(',');
+                }
+                esc(&g.param_at(i, tcx).name.to_string(), self.s);
+            }
+            self.s.push(']');
+        }
         self.s.push(',');
         self.span(self.body.span);
         let _ = write!(self.s, ",\"argc\":{}", self.body.arg_count);
